@@ -29,7 +29,7 @@ CHECKS = {
         "HUGRs are resolved against empty, single-extension, subset, complete and definition-pruned registries. Every position must be "
         "replaced exactly when the registry defines it; the serialized form (descriptions masked), the exported model, signatures, port "
         "kinds/types and bounds must not change (also when the loaded runtime requirements were perturbed); resolving twice must equal resolving once. "
-        "Planted ops include definitions whose signature is computed (no declared polymorphic signature), and the comparison counts how often it was non-vacuous.",
+        "Planted ops include definitions whose signature is computed (no declared polymorphic signature) and ops / types whose names only resemble defined ones; the comparison counts how often it was non-vacuous.",
         "Trusted: the view/expectation functions in vf/props/c11.py; registries are built from pruned copies of the real definitions.",
         "DESIGN.md §3 C11",
     ),
@@ -191,7 +191,8 @@ CHECKS = {
         "constants, function values; nesting to depth 3/5) are built with the real constructors; the serialized form must inhabit the "
         "reported type under a JSON-level re-implementation of the Rust rules, the reported type must equal the descriptor's, helper tags "
         "must be the documented ones, collections must embed each element completely, and Const/LoadConst from DfBase.load must agree (also for "
-        "every load in generated builder programs); helper constructors are also handed one-shot iterables; values decoded from their own serialization are judged again.",
+        "every load in generated builder programs); helper constructors are also handed one-shot iterables; values decoded from their own serialization are judged again; "
+        "function values rooted at a TailLoop must report the body's signature.",
         "Trusted: vf/oracles/wire.py (inhabits, canonical types), vf/gen/values.py type_of. A negative self-test of the oracle runs first.",
         "DESIGN.md §3 C14",
     ),
